@@ -282,4 +282,82 @@ theorem findFrom_some {f : Route α → Bool} {l : List (Route α)} {c j : Nat} 
       obtain ⟨pre, post, h1, h2, h3, h4⟩ := ih hj
       exact ⟨pre, post, by simpa using h1, h2, h3, by simpa using h4⟩
 
+
+/-! ### the ghost registration indices along a stack -/
+
+/-- along a stack the registration index ranges `[first, last]` of the routes are disjoint and increase -/
+def FSorted (l : List (Route α)) : Prop :=
+  l.Pairwise (fun a b => a.last < b.first) ∧ ∀ a ∈ l, a.first ≤ a.last
+
+theorem FSorted.filter {l : List (Route α)} (h : FSorted l) (f : Route α → Bool) : FSorted (l.filter f) :=
+  ⟨List.Pairwise.filter f h.1, fun a ha => h.2 a (List.mem_filter.mp ha).1⟩
+
+theorem FSorted.tail {x : Route α} {xs : List (Route α)} (h : FSorted (x :: xs)) : FSorted xs :=
+  ⟨(List.pairwise_cons.mp h.1).2, fun a ha => h.2 a (List.mem_cons_of_mem _ ha)⟩
+
+theorem FSorted.drop_countP (l : List (Route α)) (h : FSorted l) (q : Nat) :
+    l.drop (l.countP fun x => x.first ≤ q) = l.filter (fun x => q + 1 ≤ x.first) := by
+  induction l with
+  | nil => simp
+  | cons x xs ih =>
+    have hp := List.pairwise_cons.mp h.1
+    have hx1 := h.2 x List.mem_cons_self
+    by_cases hx : x.first ≤ q
+    · have hq : ¬ q + 1 ≤ x.first := by omega
+      simp [List.countP_cons, hx, hq, List.filter_cons, ih h.tail]
+    · have hall : ∀ y ∈ xs, ¬ y.first ≤ q := by
+        intro y hy; have := hp.1 y hy; omega
+      have hc : xs.countP (fun x => x.first ≤ q) = 0 := by
+        rw [List.countP_eq_zero]; intro y hy; simpa using hall y hy
+      have hf : xs.filter (fun x => q + 1 ≤ x.first) = xs := by
+        rw [List.filter_eq_self]; intro y hy; have := hall y hy; simp; omega
+      have hq : q + 1 ≤ x.first := by omega
+      simp [List.countP_cons, hx, hc, List.filter_cons, hq, hf]
+
+/-- inside one stack, "behind by position" and "behind by registration index" coincide -/
+theorem pos_first_iff {st : List (Route α)} (hs : Sorted st) (hf : FSorted st) {r x : Route α}
+    (hr : r ∈ st) (hx : x ∈ st) : r.pos < x.pos ↔ r.last + 1 ≤ x.first := by
+  induction st with
+  | nil => cases hr
+  | cons a t ih =>
+    have hp := List.pairwise_cons.mp hs
+    have hq := List.pairwise_cons.mp hf.1
+    rcases List.mem_cons.mp hr with e1 | hr' <;> rcases List.mem_cons.mp hx with e2 | hx'
+    · have := hf.2 a List.mem_cons_self; rw [e1, e2]; omega
+    · have h1 := hp.1 x hx'; have h2 := hq.1 x hx'; rw [e1]; omega
+    · have h1 := hp.1 r hr'; have h2 := hq.1 r hr'
+      have h3 := hf.2 r (List.mem_cons_of_mem _ hr'); have h4 := hf.2 a List.mem_cons_self
+      rw [e2]; omega
+    · exact ih hp.2 hf.tail hr' hx'
+
+theorem drop_min_length (l : List (Route α)) (c : Nat) : l.drop (min c l.length) = l.drop c := by
+  by_cases h : c ≤ l.length
+  · rw [Nat.min_eq_left h]
+  · have h' : l.length ≤ c := by omega
+    rw [Nat.min_eq_right h', List.drop_length, List.drop_eq_nil_of_le h']
+
+theorem find?_filter_of_imp {l : List (Route α)} {f q : Route α → Bool}
+    (h : ∀ x ∈ l, f x = true → q x = true) : (l.filter q).find? f = l.find? f := by
+  induction l with
+  | nil => rfl
+  | cons x xs ih =>
+    have ih' := ih (fun y hy => h y (List.mem_cons_of_mem _ hy))
+    by_cases hf : f x = true
+    · have hq := h x List.mem_cons_self hf
+      simp [List.filter_cons, hq, List.find?_cons, hf]
+    · have hf' : f x = false := by simpa using hf
+      by_cases hq : q x = true
+      · simp [List.filter_cons, hq, List.find?_cons, hf', ih']
+      · simp [List.filter_cons, hq, List.find?_cons, hf', ih']
+
+theorem find?_of_split {l pre post : List (Route α)} {f : Route α → Bool} {r : Route α}
+    (hl : l = pre ++ r :: post) (hpre : ∀ x ∈ pre, f x = false) (hr : f r = true) : l.find? f = some r := by
+  subst hl
+  induction pre with
+  | nil => simp [List.find?_cons, hr]
+  | cons a t ih =>
+    have ha := hpre a List.mem_cons_self
+    simp only [List.cons_append, List.find?_cons, ha]
+    exact ih (fun x hx => hpre x (List.mem_cons_of_mem _ hx))
+
 end C01
